@@ -73,7 +73,11 @@ func Verif_H16Races() {
 	b := a + vrt.Choose("act-b", nActs-a)
 	// two cycles of the same collector never run concurrently (each collector is one goroutine)
 	vrt.Assume(!(a == b && a >= actIndexGC))
-	ka, kb := keys[vrt.Choose("key-a", 2)], keys[vrt.Choose("key-b", 2)]
+	if vrt.Param("gconly", 0) != 0 {
+		vrt.Assume(b >= actIndexGC) // only pairs in which one side is a collector
+	}
+	// same key or two keys of one bucket (locks are not per key; one structural bit)
+	ka, kb := keys[0], keys[vrt.Param("samekey", 0)^1]
 	va, vb := []byte{0xA1}, []byte{0xB2}
 	if vrt.Param("started", 1) != 0 {
 		s.Start() // background flusher (it answers flush requests of rate-limited writers)
